@@ -149,6 +149,41 @@ def direct_out(t):
     return None
 
 
+BOOL01_CALLS = ("bint", "stoIsPointer")       # callees that return the result of a comparison / a literal 0 or 1
+
+
+def is_canonical_bool(t):
+    """the expression can only have the values 0 and 1 (FOAM's Bool), so that BoolEQ / BoolNE on it compare truth values"""
+    h = t[0]
+    if h == "int":
+        return t[1] in (0, 1)
+    if h == "bin":
+        return t[1] in ("==", "!=", "<", "<=", ">", ">=", "&&", "||") or (
+            t[1] in ("&", "|", "^") and is_canonical_bool(t[2]) and is_canonical_bool(t[3]))
+    if h == "un":
+        return t[1] == "!"
+    if h == "cond":
+        return is_canonical_bool(t[2]) and is_canonical_bool(t[3])
+    if h == "cast":
+        return is_canonical_bool(t[-1])
+    if h == "arg":
+        return True            # a Bool operand is canonical by induction
+    if h == "call":
+        return t[1].startswith(BOOL01_CALLS)
+    return False
+
+
+def pre_truth(t, row, used):
+    """canon() up to, but not including, the replacement of the result by its truth value"""
+    t = outs(t, row["argCount"])
+    classes = arg_classes(row)
+    boolargs = bool(row["argTypes"]) and all(a == "FOAM_Bool" for a in row["argTypes"])
+    t = simp(t, set(), boolargs)
+    t = adapt(t, set())
+    t = retype(t, classes)
+    return trees.strip_result_casts(t, "i64")
+
+
 def canon(t, row, used):
     t = outs(t, row["argCount"])
     classes = arg_classes(row)
@@ -588,6 +623,24 @@ def run(tier, only=None):
         if ref is not None:
             raw["R"] = ref
 
+        # B6: a Bool result is one of the two Bool values, not merely zero / non-zero
+        if row["retType"] == "FOAM_Bool" and row.get("retCount", 1) == 1 and short not in no_value:
+            for src, t in sorted(raw.items()):
+                if src == "R" or has_opaque(t):
+                    continue
+                pt_ = pre_truth(t, row, used)
+                if has_opaque(pt_):
+                    continue
+                if is_canonical_bool(pt_):
+                    rep.ok("B6", "%s:%s" % (short, src), nontrivial=False)
+                else:
+                    rep.violation("B6", "%s:%s" % (short, src), where[src],
+                                  "%s returns %s as a Bool: any non-zero int, not the Bool value 1. %s and the other copies agree on "
+                                  "truth, but BoolEQ/BoolNE and conversions compare the raw word, so the result of the builtin differs "
+                                  "between the evaluators" % (
+                                      {"F": "the folder", "I": "the interpreter", "CE": "generated C", "CS": "the C statement macro"}[src],
+                                      show(pt_), short))
+
         # canonical forms
         for src, t in raw.items():
             forms[src] = canon(t, row, used)
@@ -693,6 +746,8 @@ def run(tier, only=None):
     rep.floor("builtins with at least two comparable copies", compared, 150)
     rep.analysed_count("builtins", len(alltags))
     rep.assumptions += [
+        "B6: for every builtin returning Bool, each copy's expression (before truth normalisation) is 0/1-valued by its shape: a "
+        "comparison, logical operator, !x, 0/1 literal, conditional of such, a Bool operand, or a bigint/store predicate",
         "B7 is a width lint over bigint.c, dword.c, foam_c.c, foam_i.c, fint.c, of_cfold.c: an integer literal shifted left by a "
         "non-constant count in type int whose result flows into 64-bit arithmetic",
         "B5 = C02-Q1 restricted to the ring (integer) algebra: table cells of peepBValOpInfo are identities of a commutative ring with "
